@@ -147,3 +147,37 @@ Proof.
            sx1_rows ex_m_small ltac:(lra)).
   apply sx1_norm. apply sx1_entry.
 Qed.
+
+(* the side conditions of the allowance corollary on this system: eA = gam_1 * 2 <= c u NA with c = 2, and the
+   amplification amp = kap (1+rho)/(1-rho)^2 is below 2 *)
+Lemma ex_eA_c : gam ux 1 * 2 <= 2 * (ux * 2).
+Proof.
+  unfold gam. cbn [INR]. pose proof ux_range as U. pose proof ux_small as Sm.
+  assert (H : 1 * ux / (1 - 1 * ux) <= 2 * ux).
+  { apply (Rmult_le_reg_r (1 - 1 * ux)); [lra|]. unfold Rdiv. rewrite Rmult_assoc, Rinv_l by lra. nra. }
+  lra.
+Qed.
+
+Lemma ex_amp : (4 * INR 1 + 1) * (1 + 2) * amp ux 1 1 <= 128 * INR (1 + 1).
+Proof.
+  pose proof ux_range as U. pose proof ux_small as Sm.
+  assert (Hr : 0 <= rho ux <= / 1000).
+  { unfold rho. split; [apply Rmult_le_pos; [lra|apply Rlt_le, Rinv_0_lt_compat; lra]|].
+    apply (Rmult_le_reg_r (1 - ux)); [lra|]. unfold Rdiv. rewrite Rmult_assoc, Rinv_l by lra. lra. }
+  assert (Hg : 0 <= gN ux 1 <= / 100).
+  { unfold gN, gam. cbn [Nat.add INR]. split.
+    - apply Rmult_le_pos; [lra|apply Rlt_le, Rinv_0_lt_compat; lra].
+    - apply (Rmult_le_reg_r (1 - (1 + 1) * ux)); [lra|]. unfold Rdiv. rewrite Rmult_assoc, Rinv_l by lra. lra. }
+  assert (Hk : 0 <= kap ux 1 <= 102 / 100).
+  { unfold kap. split; [apply Rlt_le, Rinv_0_lt_compat; lra|].
+    apply (Rmult_le_reg_r (1 - gN ux 1)); [lra|]. rewrite Rinv_l by lra. lra. }
+  assert (HD : 99 / 100 <= (1 - rho ux) ^ (1 + 1)) by (cbn [Nat.add pow]; nra).
+  assert (Hi : / (1 - rho ux) ^ (1 + 1) <= 100 / 99).
+  { replace (100 / 99) with (/ (99 / 100)) by field. apply Rinv_le_contravar; lra. }
+  assert (Pi : 0 < / (1 - rho ux) ^ (1 + 1)) by (apply Rinv_0_lt_compat; lra).
+  assert (HN : 0 <= kap ux 1 * (1 + rho ux) <= 103 / 100) by nra.
+  assert (HA : amp ux 1 1 <= 2).
+  { unfold amp, Rdiv. apply Rle_trans with (103 / 100 * (100 / 99)); [|lra].
+    apply Rmult_le_compat; lra. }
+  cbn [INR Nat.add]. lra.
+Qed.
